@@ -76,7 +76,7 @@ PROPS = {
     'C04': dict(
         technique='Kani function-contract proofs on the real cost/wallet/builder-step functions; Verus composition lemmas',
         level_text='Deductive proof of the checker side of gas accounting: cost price is linear with the published table, the wallet update is exact and rejects negatives, merges require equal wallets, builder step counting is exact.',
-        level_note='Trusted: A0, tools. Bounded Kani units: wallet key universe (2 tokens), builder var maps (<= 2 vars). Outside contracts and covered only by bounded native stand-ins (never counted as proved): the per-libfunc cost table vs emitted code (n_c04_casm_steps, Sierra corpus), gas metadata validation (n_c04_metadata), the caller-side entry cost and run-time price table of the runner (n_c04_entry_cost), the entry-point cost check of contract classes on generated contracts with an unpaid builtin use (n_class_gen), the per-libfunc cost-vs-emitted-steps comparison over the boundary universe (n_libfunc_sweep), and the property's own inequality on VM runs of compiled Cairo programs under both solvers (n_trace_corpus). The gas solvers are outside.',
+        level_note='Trusted: A0, tools. Bounded Kani units: wallet key universe (2 tokens), builder var maps (<= 2 vars). Outside contracts and covered only by bounded native stand-ins (never counted as proved): the per-libfunc cost table vs emitted code (n_c04_casm_steps, Sierra corpus), gas metadata validation (n_c04_metadata), the caller-side entry cost and run-time price table of the runner (n_c04_entry_cost), the entry-point cost check of contract classes on generated contracts with an unpaid builtin use (n_class_gen), the per-libfunc cost-vs-emitted-steps comparison over the boundary universe (n_libfunc_sweep), and the inequality of the property statement on VM runs of compiled Cairo programs under both solvers (n_trace_corpus). The gas solvers are outside.',
         scope='Checker side of gas soundness (DESIGN.md 4/C04).',
         assumptions=[A0, A1, A3, A4],
         outside=['gas solvers (compute_costs.rs, eq-solver)', 'core_libfunc_cost_base.rs tables', "the 'Wrong costs for' comparison inside build_from_casm_builder_ex", 'runner gas accounting'],
